@@ -62,13 +62,12 @@ func (self *Core) runInstruction(instruction compiler.Instruction) *value.VmInte
 	case compiler.Opcode_Spawn:
 		i := instruction.(compiler.OneStringInstruction)
 
-		// TODO: implement deepcopy for the arguments which are sent over to the new thread
-		// Otherwise, when passing a list as an argument, we will get in trouble
-
+		// The arguments are sent over to the new thread as deep copies: the thread runs with the values given at
+		// the spawn, a list or object is not shared with the spawning thread (which goes on using it).
 		args := make([]value.Value, 0)
 		numArgs := (*self.pop()).(value.ValueInt).Inner
 		for i := 0; i < int(numArgs); i++ {
-			args = append([]value.Value{*self.pop()}, args...) // TODO: implement deepcopy here
+			args = append([]value.Value{*(*self.pop()).Clone()}, args...)
 		}
 
 		// TODO: how to handle the debugger
